@@ -900,7 +900,17 @@ def disjunctionOnTarget (ss : Schemas) (o : Opt) (idx : Nat) (target : Argument)
     | .panic s => .panic s
   else unchanged o
 
+/-- `DisjunctionAsOptionsAction` (since /repo 423e7f3: an `argumentIndex` outside the option's
+    arguments returns the option unchanged) -/
 def disjunctionAsOptionsAction (argumentIndex : Int) (ss : Schemas) (o : Opt) : Outcome ActOut :=
+  if argumentIndex < 0 then unchanged o
+  else
+    match o.args[argumentIndex.toNat]? with
+    | none => unchanged o
+    | some target => disjunctionOnTarget ss o argumentIndex.toNat target
+
+/-- before /repo 423e7f3: only `len(option.Args) == 0` was checked, `option.Args[argumentIndex]` panicked -/
+def disjunctionAsOptionsActionPreFix (argumentIndex : Int) (ss : Schemas) (o : Opt) : Outcome ActOut :=
   if o.args.isEmpty then unchanged o
   else if argumentIndex < 0 then .panic "option.Args[argumentIndex]"
   else
